@@ -121,6 +121,29 @@ def check_windows(case, spec, r, ck):
     m = r.op.mapping
     flowed = False
     for a in spec['assets']:
+        if a['type'] == 'StructuredAsset' and (a.get('start') is not None or a.get('end') is not None):
+            # a structured asset is an asset: it (and everything it wraps) is dispatched only inside its own window; a wrapped asset
+            # additionally only inside its own
+            Ws = set(ck.window(a.get('start'), a.get('end')))
+            rows = m[(m['asset'] == a['name'])]
+            steps = set(int(t) for t in rows['time_step'].values)
+            case.check('window.mapping_rows_inside', steps <= Ws, asset=a['name'], cls='StructuredAsset', outside=sorted(steps - Ws)[:6], start=a.get('start'), end=a.get('end'))
+            if 'internal_asset' in rows.columns:
+                for x in a['assets']:
+                    Wx = Ws & set(ck.window(x.get('start'), x.get('end')))
+                    sx = set(int(t) for t in rows[rows['internal_asset'] == x['name']]['time_step'].values)
+                    case.check('window.mapping_rows_inside', sx <= Wx, asset=a['name'] + '/' + x['name'], cls='wrapped ' + x['type'], outside=sorted(sx - Wx)[:6],
+                               start=x.get('start'), end=x.get('end'), struct_window=[a.get('start'), a.get('end')])
+            if r.solved and r.out is not None:
+                disp = r.out['dispatch']; nz = set()
+                for n in a['nodes']:
+                    col = a['name'] if len(r.built.portfolio.nodes) == 1 else '%s (%s)' % (a['name'], n)
+                    if col in disp.columns:
+                        nz |= set(np.where(np.abs(disp[col].values.astype(float)) > 1e-7)[0].tolist())
+                if nz:
+                    flowed = True
+                case.check('window.dispatch_zero_outside', nz <= Ws, nonvacuous=bool(nz), asset=a['name'], cls='StructuredAsset', outside=sorted(nz - Ws)[:6])
+            continue
         if a['type'] in ('OrderBook', 'StructuredAsset', 'LinkedAsset'):
             continue
         W = set(ck.window(a.get('start'), a.get('end')))
@@ -186,6 +209,20 @@ def run_case(rng, tier, case):
     base = gen.gen_mixed_portfolio(rng, kinds=('contract', 'contract', 'transport', 'storage', 'multi', 'orderbook', 'coarse', 'plant', 'storage_blocks'),
                                    grid_kw={'steps': (5, 26)}, n_assets=(2, 5), n_nodes=(1, 3))
     spec = gen.strip_private(base)
+    if rng.random() < 0.3:
+        # a structured asset with a window of its own (both ends, only start, only end) around wrapped assets with and without own windows
+        g = spec['grid']; f = gen.UNIT_F[g['unit']]
+        ext = sorted({n for a in spec['assets'] for n in (a.get('nodes') or [])})[0]
+        ws, we, _k = gen.gen_window(rng, g, kinds=['inside', 'inside', 'straddle_start', 'straddle_end', 'start_only', 'end_only'])
+        inner = []
+        for nm, mk in (('sw_src', lambda w: gen.gen_contract(rng, g, 'sw_src', 'sw_in', f, sorted(spec['prices'])[0], window=False, take=False, simple=True, dict_caps=False)),
+                       ('sw_tr', lambda w: gen.gen_transport(rng, g, 'sw_tr', 'sw_in', ext, f, window=False, extended=False))):
+            x = gen.strip_private(mk(None))
+            i_s, i_e, _k2 = gen.gen_window(rng, g, kinds=['none', 'none', 'inside', 'straddle_start', 'straddle_end', 'start_only', 'end_only'])
+            x['start'] = i_s; x['end'] = i_e
+            inner.append(x)
+        spec['assets'].append({'type': 'StructuredAsset', 'name': 'swin', 'nodes': [ext], 'assets': inner, 'start': ws, 'end': we})
+        case.feature('structured_with_window')
     plus, what, inert_name = inert_element(rng, spec)
     split = gen.pick(rng, ['d', '12h', '6h']) if (rng.random() < 0.3 and not spec['grid']['freq'].endswith('d')) else None
     case.feature('inert:' + what.split('_')[0], 'place:' + what, 'split' if split else 'monolithic')
